@@ -203,6 +203,9 @@ func (f *Frame) run(st *State, params []Val, bindings []Val) ([]Val, *State) {
 		f.loopMods(l)
 		if f.spec != nil {
 			for _, inv := range f.spec.Invariants {
+				if strings.HasSuffix(inv.Label, "@root") && f.parent != nil {
+					continue // an invariant that only the function's own postconditions need
+				}
 				if inv.Loop == l.ordinal && !skipLabel(inv.Label) {
 					l.userInv = append(l.userInv, inv)
 				}
